@@ -23,6 +23,10 @@
      script says.  A call that hangs until the deadline is an [OTimeout]/[OSlowOk] call in the
      visit after which the context is done.  The retry loop of StoreDocuments and the back-off
      sleep do not look at the context (plain time.Sleep), and neither does the model;
+   * a client serves a SEQUENCE of bulks (store_sequence): every bulk gets a write-status matrix that
+     is all-false by construction (newBulkWriteStatus inside StoreDocuments), nothing of it is
+     carried from one bulk to the next; [store_sequence_v0] is the variant with a status object
+     that is reused dirty after a failed bulk (kept only to document why that is wrong);
    * the result: nil / error of StoreDocuments and the log of shard visits with their calls.
    Not modelled: back-off sleeps, metrics, error texts, the internals of the circuit library
    (when it opens); payload bytes are abstracted to an identifier. *)
@@ -161,3 +165,43 @@ Definition init_st (cin hin : list shard_in) (cord hord : list (list nat)) (canc
 Definition store_documents (tries : nat) (pay : N) (cin hin : list shard_in)
            (cord hord : list (list nat)) (cancel : option nat) : st * list visit * bool :=
   attempts tries pay (init_st cin hin cord hord cancel).
+
+(* ------------------------------------------------------------------ sequences of bulks on one client *)
+
+Record bulk_in := mkBI {
+  bi_pay : N; bi_cin : list shard_in; bi_hin : list shard_in;
+  bi_cord : list (list nat); bi_hord : list (list nat); bi_cancel : option nat }.
+
+Definition run_bulk (tries : nat) (b : bulk_in) : st * list visit * bool :=
+  store_documents tries (bi_pay b) (bi_cin b) (bi_hin b) (bi_cord b) (bi_hord b) (bi_cancel b).
+
+(* StoreDocuments builds a fresh status per call: the bulks of a sequence do not interact *)
+Definition store_sequence (tries : nat) (bs : list bulk_in) : list (st * list visit * bool) :=
+  map (run_bulk tries) bs.
+
+(* _v0: the status object (written bits, cold_w) of a FAILED bulk is reused as it is by the next
+   bulk (a pooled object that is reset only on the success path) *)
+Fixpoint carry_reps (prev new : list rep) : list rep :=
+  match prev, new with
+  | p :: ps, n :: ns => mkRep (r_written p) (r_script n) :: carry_reps ps ns
+  | _, _ => new
+  end.
+Fixpoint carry_tier (prev new : list shard) : list shard :=
+  match prev, new with
+  | p :: ps, n :: ns => mkShard (s_open n) (carry_reps (s_reps p) (s_reps n)) :: carry_tier ps ns
+  | _, _ => new
+  end.
+Definition carry_st (prev fresh : st) : st :=
+  mkSt (cold_w prev) (carry_tier (cold prev) (cold fresh)) (carry_tier (hot prev) (hot fresh))
+       (cold_ord fresh) (hot_ord fresh) (ctx fresh).
+Fixpoint store_sequence_v0_from (tries : nat) (dirty : option st) (bs : list bulk_in)
+  : list (st * list visit * bool) :=
+  match bs with
+  | [] => []
+  | b :: r =>
+      let s0 := init_st (bi_cin b) (bi_hin b) (bi_cord b) (bi_hord b) (bi_cancel b) in
+      let s1 := match dirty with Some p => carry_st p s0 | None => s0 end in
+      let '(s', log, ok) := attempts tries (bi_pay b) s1 in
+      (s', log, ok) :: store_sequence_v0_from tries (if ok then None else Some s') r
+  end.
+Definition store_sequence_v0 (tries : nat) (bs : list bulk_in) := store_sequence_v0_from tries None bs.
